@@ -12,7 +12,8 @@ Inductive atom : Type :=
 | ANone
 | ABool (b : bool)
 | AInt (z : Z)
-| AOv (z : Z) (cascade attrs : bool).
+| AOv (z : Z) (cascade attrs : bool)
+| AD (d : list (Z * atom)).      (* a dict-valued option (nested to any depth), e.g. view_options(extra_flags={...}) *)
 
 (* a Python dict with small-integer names as keys, in insertion order *)
 Definition dict := list (Z * atom).
@@ -22,15 +23,6 @@ Inductive val : Type :=
 | VA (a : atom)
 | VD (d : dict)
 | VS (s : list dict).
-
-Definition atom_eqb (a b : atom) : bool :=
-  match a, b with
-  | ANone, ANone => true
-  | ABool x, ABool y => Bool.eqb x y
-  | AInt x, AInt y => Z.eqb x y
-  | AOv x c1 a1, AOv y c2 a2 => Z.eqb x y && Bool.eqb c1 c2 && Bool.eqb a1 a2
-  | _, _ => false
-  end.
 
 Definition v_none : val := VA ANone.
 Definition v_true : val := VA (ABool true).
@@ -44,6 +36,7 @@ Definition truthy (v : val) : bool :=
   | VA (ABool b) => b
   | VA (AInt z) => negb (Z.eqb z 0)
   | VA (AOv _ _ _) => true
+  | VA (AD d) => match d with [] => false | _ => true end
   | VD d => match d with [] => false | _ => true end
   | VS s => match s with [] => false | _ => true end
   end.
@@ -70,8 +63,26 @@ Definition py_copy (v : val) : val := v.
 (* x.update(y) on dicts (rebinding x); anything else is a Python error: x is left alone *)
 Definition py_update (x y : val) : val :=
   match x, y with VD a, VD b => VD (dict_update a b) | _, _ => x end.
-(* utils.merge([a, b]) on flat dicts of atoms is dict.update on a copy (see design/C17.md) *)
-Definition py_merge2 (x y : val) : val := py_update x y.
+(* utils.merge([a, b]): a deep merge into a deep copy.  A key of b whose value and the value already there are both
+   dicts is merged recursively (keeping the position of the key); any other value replaces / is appended. *)
+Fixpoint atom_merge (o n : atom) {struct n} : atom :=
+  match o, n with
+  | AD od, AD nd =>
+      AD ((fix go (nd : list (Z * atom)) (acc : list (Z * atom)) {struct nd} : list (Z * atom) :=
+             match nd with
+             | [] => acc
+             | (k, v) :: r =>
+                 go r (dict_set k (match dict_get k acc with Some ov => atom_merge ov v | None => v end) acc)
+             end) nd od)
+  | _, _ => n
+  end.
+Definition dict_merge (a b : dict) : dict :=
+  fold_left (fun acc kv => dict_set (fst kv) (match dict_get (fst kv) acc with
+                                                | Some ov => atom_merge ov (snd kv)
+                                                | None => snd kv
+                                                end) acc) b a.
+Definition py_merge2 (x y : val) : val :=
+  match x, y with VD a, VD b => VD (dict_merge a b) | _, _ => x end.
 (* d.get(k, default), d[k] = v, for k, v in d.items() — dict keys and values travel as atoms *)
 Definition py_dict_get (d k default : val) : val :=
   match d, k with
@@ -146,21 +157,31 @@ Definition tl_pop (k : tlkey) (s : store) : store :=
 
 (* --- wire encoding of values ---------------------------------------------------------------- *)
 Local Open Scope Z_scope.
-Definition e_atom (a : atom) : tr :=
+Fixpoint e_atom (a : atom) : tr :=
   match a with
   | ANone => L [I 0]
   | ABool b => L [I 1; ebool b]
   | AInt z => L [I 2; I z]
   | AOv z c t => L [I 3; I z; ebool c; ebool t]
+  | AD d => L [I 4; L ((fix go (l : list (Z * atom)) : list tr :=
+                          match l with [] => [] | (k, v) :: r => L [I k; e_atom v] :: go r end) d)]
   end.
-Definition d_atom (t : tr) : option atom :=
-  match t with
-  | L [I 0] => Some ANone
-  | L [I 1; b] => do b' <- dbool b; Some (ABool b')
-  | L [I 2; I z] => Some (AInt z)
-  | L [I 3; I z; c; a] => do c' <- dbool c; do a' <- dbool a; Some (AOv z c' a')
-  | _ => None
+Fixpoint d_atom_f (fuel : nat) (t : tr) : option atom :=
+  match fuel with
+  | O => None
+  | S f =>
+    match t with
+    | L [I 0] => Some ANone
+    | L [I 1; b] => do b' <- dbool b; Some (ABool b')
+    | L [I 2; I z] => Some (AInt z)
+    | L [I 3; I z; c; a] => do c' <- dbool c; do a' <- dbool a; Some (AOv z c' a')
+    | L [I 4; L es] =>
+        do d <- dall (fun e => match e with L [I k; a] => do a' <- d_atom_f f a; Some (k, a') | _ => None end) es;
+        Some (AD d)
+    | _ => None
+    end
   end.
+Definition d_atom (t : tr) : option atom := d_atom_f 12 t.
 Definition e_dict (d : dict) : tr := L (map (fun ka => L [I (fst ka); e_atom (snd ka)]) d).
 Definition d_entry (t : tr) : option (Z * atom) :=
   match t with L [I k; a] => do a' <- d_atom a; Some (k, a') | _ => None end.
